@@ -209,6 +209,8 @@ def explore(ctx: Ctx):
             ctx.violation('spec_violation', f"{d['mode']} design: exit {b['exit']} under hashseed=0, exit {r['exit']} ({r['exc']} {r['msg'][:60]}) under {kind}",
                           {'surface': 'file', 'design': d, 'variant': v, 'kind': kind})
             continue
+        if b['exit'] != 0:
+            continue     # a refused run stops at the offending targeton: which files exist then depends on the row order (outside C12, see C13/C19)
         df = first_diff(b['files'], r['files'])
         if df:
             ctx.violation('spec_violation', f"{d['mode']} design: outputs differ between hashseed=0 and {kind}: {df}",
